@@ -1,5 +1,6 @@
 import Q1t.Proofs.RouteKron
 import Q1t.Proofs.BitPerm
+import Q1t.Proofs.EmbedLift
 /-!
 # C04 (d), part 1: both branches of `apply_gate_slice` compute the "gather form"
 
@@ -74,5 +75,287 @@ theorem bitPermutation_gatherInv : bitPermutation n bits = some (gatherInv n bit
   bitPermutation_eq n bits hv
 
 end facts
+
+
+theorem permuted_length (m : Mode) (idxs : List Nat) (v : List (Row α m)) :
+    (permuted idxs v).length = idxs.length := by simp [permuted]
+
+theorem permuted_get (m : Mode) (idxs : List Nat) (v : List (Row α m)) (r : Nat) (hr : r < idxs.length)
+    (hlt : idxs[r]! < v.length) :
+    (permuted idxs v)[r]'(by rw [permuted_length]; exact hr) = v[idxs[r]!]'hlt := by
+  have hlt' : idxs[r] < v.length := by simpa [hr] using hlt
+  simp [permuted, hr, hlt']
+
+theorem stateEntry_permuted (m : Mode) (idxs : List Nat) (v : List (Row α m)) (r col : Nat)
+    (hr : r < idxs.length) (hlt : idxs[r]! < v.length) :
+    stateEntry m (permuted idxs v) r col = stateEntry m v (idxs[r]!) col := by
+  rw [stateEntry_get _ _ _ _ (by rw [permuted_length]; exact hr), stateEntry_get _ _ _ _ hlt,
+    permuted_get m idxs v r hr hlt]
+
+theorem permuted_rowsW (m : Mode) (w : Nat) (idxs : List Nat) (v : List (Row α m)) (hv : RowsW m w v)
+    (hidx : ∀ r, r < idxs.length → idxs[r]! < v.length) : RowsW m w (permuted idxs v) := by
+  intro x hx
+  obtain ⟨r, hr, rfl⟩ := List.getElem_of_mem hx
+  have hr' : r < idxs.length := by rw [permuted_length] at hr; exact hr
+  rw [permuted_get m idxs v r hr' (hidx r hr')]
+  exact hv _ (List.getElem_mem _)
+
+theorem gatherApply_length (m : Mode) (w n : Nat) (bits : List Nat) (M : LMat α) (v : List (Row α m)) :
+    (gatherApply m w n bits M v).length = 2 ^ n := by simp [gatherApply]
+
+theorem gatherApply_rowsW (m : Mode) (w : Nat) (hw : OkWidth m w) (n : Nat) (bits : List Nat) (M : LMat α)
+    (v : List (Row α m)) : RowsW m w (gatherApply m w n bits M v) := by
+  intro r hr
+  simp only [gatherApply, List.mem_map] at hr
+  obtain ⟨_, _, rfl⟩ := hr
+  exact width_mk _ _ _ hw
+
+theorem gatherApply_entry (m : Mode) (w : Nat) (hw : OkWidth m w) (n : Nat) (bits : List Nat) (M : LMat α)
+    (v : List (Row α m)) (r col : Nat) (hr : r < 2 ^ n) (hcol : col < w) :
+    stateEntry m (gatherApply m w n bits M v) r col =
+      ∑ c ∈ Finset.range (2 ^ bits.length), LMat.get M (subIndex n bits r) c *
+        stateEntry m v ((gatherInv n bits).getD
+          (c * 2 ^ (n - bits.length) + subIndex n (others n bits) r) 0) col := by
+  rw [stateEntry_get _ _ _ _ (by rw [gatherApply_length]; exact hr)]
+  simp only [gatherApply, List.getElem_map, List.getElem_range]
+  rw [entry_mk _ _ _ hw _ hcol, sumTo_eq_sum]
+
+/-- index arithmetic of the gather map -/
+theorem gather_split (n : Nat) (bits : List Nat) (hv : validBits n bits = true) (r : Nat) :
+    gatherIndex n bits r / 2 ^ (n - bits.length) = subIndex n bits r ∧
+    gatherIndex n bits r % 2 ^ (n - bits.length) = subIndex n (others n bits) r := by
+  have hrest : subIndex n (others n bits) r < 2 ^ (n - bits.length) := by
+    have := subIndex_lt n (others n bits) r
+    rwa [others_length n bits hv] at this
+  have hT : 0 < 2 ^ (n - bits.length) := Nat.two_pow_pos _
+  rw [gatherIndex_eq n bits r hv]
+  constructor
+  · rw [Nat.add_comm, Nat.add_mul_div_right _ _ hT, Nat.div_eq_of_lt hrest, Nat.zero_add]
+  · rw [Nat.add_comm, Nat.add_mul_mod_self_right, Nat.mod_eq_of_lt hrest]
+
+theorem pow_split (n k : Nat) (hk : k ≤ n) : 2 ^ k * 2 ^ (n - k) = 2 ^ n := by
+  rw [← Nat.pow_add]; congr 1; omega
+
+theorem permBranch_spec (m : Mode) (w : Nat) (hw : OkWidth m w) (n : Nat) (bits : List Nat)
+    (hv : validBits n bits = true) (M : LMat α) (hM : M.length = 2 ^ bits.length)
+    (f : List (Row α m) → Option (List (Row α m)))
+    (hf : ∀ work, work.length = 2 ^ n → RowsW m w work →
+      f work = some (blockMul m w M (2 ^ (n - bits.length)) work))
+    (v : List (Row α m)) (hlen : v.length = 2 ^ n) (hvw : RowsW m w v) :
+    ((bitPermutation n bits).bind fun perm => (Q1t.Perm.applyInto perm v).bind fun work =>
+        (f work).bind fun work' => Q1t.Perm.applyInverseInto perm work' v) =
+      some (gatherApply m w n bits M v) := by
+  have hk : bits.length ≤ n := validBits_length_le n bits hv
+  have hp := gatherInv_isPerm n bits hv
+  have hpl := gatherInv_length n bits hv
+  set T := 2 ^ (n - bits.length) with hT
+  have hidx : ∀ r, r < (gatherInv n bits).length → (gatherInv n bits)[r]! < v.length := by
+    intro r hr
+    rw [hpl] at hr
+    have := gatherInv_lt n bits hv r hr
+    rw [gatherInv_getD n bits hv] at this
+    rw [hlen]; exact this
+  rw [bitPermutation_gatherInv n bits hv, Option.bind_some,
+    Proofs.Perm.into_spec _ v hp (by rw [hlen, hpl]), Option.bind_some,
+    hf _ (by rw [permuted_length, hpl]) (permuted_rowsW m w _ v hvw hidx), Option.bind_some,
+    (Proofs.Perm.apply_inverse_undoes _ (blockMul m w M T (permuted (gatherInv n bits) v)) v hp
+      (by rw [blockMul_length, hM, hpl, hT, pow_split n _ hk]) (by rw [hlen, hpl])).2.1,
+    gatherInv_inverse n bits hv]
+  congr 1
+  have hGl := gatherTable_length n bits hv
+  have hwork'l : (blockMul m w M T (permuted (gatherInv n bits) v)).length = 2 ^ n := by
+    rw [blockMul_length, hM, hT, pow_split n _ hk]
+  have hGidx : ∀ r, r < (gatherTable n bits).length →
+      (gatherTable n bits)[r]! < (blockMul m w M T (permuted (gatherInv n bits) v)).length := by
+    intro r hr
+    rw [hGl] at hr
+    rw [gatherTable_get n bits hv r hr, hwork'l]
+    exact gatherIndex_lt n bits hv r
+  apply state_ext m w
+  · rw [permuted_length, hGl, gatherApply_length]
+  · exact permuted_rowsW m w _ _ (blockMul_rowsW m w hw _ _ _) hGidx
+  · exact gatherApply_rowsW m w hw n bits M v
+  · intro r col hr hcol
+    rw [permuted_length, hGl] at hr
+    rw [stateEntry_permuted m _ _ r col (by rw [hGl]; exact hr) (hGidx r (by rw [hGl]; exact hr)),
+      gatherTable_get n bits hv r hr,
+      blockMul_entry m w hw M T _ _ col (by rw [hM, hT, pow_split n _ hk]; exact gatherIndex_lt n bits hv r) hcol,
+      gatherApply_entry m w hw n bits M v r col hr hcol, hM, (gather_split n bits hv r).1,
+      (gather_split n bits hv r).2]
+    apply Finset.sum_congr rfl
+    intro c hc
+    have hc' : c < 2 ^ bits.length := Finset.mem_range.1 hc
+    have hrest : subIndex n (others n bits) r < T := by
+      have := subIndex_lt n (others n bits) r
+      rwa [others_length n bits hv] at this
+    have hj : c * T + subIndex n (others n bits) r < 2 ^ n := by
+      rw [← pow_split n _ hk, ← hT]
+      have := Nat.mul_le_mul_right T (Nat.succ_le_of_lt hc'); rw [Nat.succ_mul] at this; omega
+    rw [stateEntry_permuted m _ v _ col (by rw [hpl]; exact hj) (hidx _ (by rw [hpl]; exact hj)),
+      gatherInv_getD n bits hv]
+
+
+
+/-- the embedded matrix acts in gather form -/
+theorem mulState_embed_eq_gather (m : Mode) (w : Nat) (hw : OkWidth m w) (n : Nat) (bits : List Nat)
+    (hv : validBits n bits = true) (M : LMat α) (v : List (Row α m)) :
+    mulState m w (embed n bits M) v = gatherApply m w n bits M v := by
+  have hk : bits.length ≤ n := validBits_length_le n bits hv
+  have hE := embed_wf n bits M
+  set T := 2 ^ (n - bits.length) with hT
+  apply state_ext m w
+  · rw [mulState_length, hE.1, gatherApply_length]
+  · exact mulState_rowsW m w hw _ _
+  · exact gatherApply_rowsW m w hw n bits M v
+  · intro r col hr hcol
+    rw [mulState_length, hE.1] at hr
+    rw [mulState_entry m w hw _ v r col (by rw [hE.1]; exact hr) hcol, hE.1,
+      gatherApply_entry m w hw n bits M v r col hr hcol]
+    -- reindex the columns through the gather bijection
+    rw [Finset.sum_nbij' (s := Finset.range (2 ^ n)) (t := Finset.range (2 ^ n))
+      (g := fun j => LMat.get (embed n bits M) r ((gatherInv n bits).getD j 0) *
+        stateEntry m v ((gatherInv n bits).getD j 0) col)
+      (gatherIndex n bits) (fun j => (gatherInv n bits).getD j 0)
+      (fun a _ => Finset.mem_range.2 (gatherIndex_lt n bits hv a))
+      (fun a ha => Finset.mem_range.2 (gatherInv_lt n bits hv a (Finset.mem_range.1 ha)))
+      (fun a ha => gatherInv_gather n bits hv a (Finset.mem_range.1 ha))
+      (fun a ha => gather_gatherInv n bits hv a (Finset.mem_range.1 ha))
+      (fun a ha => by simp only [gatherInv_gather n bits hv a (Finset.mem_range.1 ha)])]
+    rw [← pow_split n _ hk, sum_range_mul, ← hT]
+    apply Finset.sum_congr rfl
+    intro c hc
+    have hc' : c < 2 ^ bits.length := Finset.mem_range.1 hc
+    have hrest : subIndex n (others n bits) r < T := by
+      have := subIndex_lt n (others n bits) r
+      rwa [others_length n bits hv] at this
+    rw [Finset.sum_eq_single (subIndex n (others n bits) r)]
+    · -- the matching term
+      have hj : c * T + subIndex n (others n bits) r < 2 ^ n := by
+        rw [← pow_split n _ hk, ← hT]; exact block_lt c _ T _ hc' hrest
+      set x := (gatherInv n bits).getD (c * T + subIndex n (others n bits) r) 0 with hx
+      have hxlt : x < 2 ^ n := gatherInv_lt n bits hv _ hj
+      have hgx : gatherIndex n bits x = c * T + subIndex n (others n bits) r := gather_gatherInv n bits hv _ hj
+      have hs := gather_split n bits hv x
+      rw [hgx, ← hT, (div_mod_block c T _ hrest).1, (div_mod_block c T _ hrest).2] at hs
+      rw [embed_get n bits M r x hr hxlt]
+      have hag : agreeOff n bits r x = true := (agreeOff_iff' n bits r x).2 hs.2
+      rw [if_pos hag, ← hs.1]
+    · intro j' hj' hne
+      have hj'lt : j' < T := Finset.mem_range.1 hj'
+      have hj : c * T + j' < 2 ^ n := by
+        rw [← pow_split n _ hk, ← hT]; exact block_lt c _ T _ hc' hj'lt
+      set x := (gatherInv n bits).getD (c * T + j') 0 with hx
+      have hxlt : x < 2 ^ n := gatherInv_lt n bits hv _ hj
+      have hgx : gatherIndex n bits x = c * T + j' := gather_gatherInv n bits hv _ hj
+      have hs := gather_split n bits hv x
+      rw [hgx, ← hT, (div_mod_block c T _ hj'lt).1, (div_mod_block c T _ hj'lt).2] at hs
+      rw [embed_get n bits M r x hr hxlt]
+      have hag : ¬ agreeOff n bits r x = true := by
+        intro h
+        have := (agreeOff_iff' n bits r x).1 h
+        rw [← hs.2] at this
+        exact hne this.symm
+      rw [if_neg hag, zero_mul]
+    · intro h; exact absurd (Finset.mem_range.2 hrest) h
+
+
+theorem validBits_single (n b : Nat) (hb : b < n) : validBits n [b] = true := by
+  simp [validBits, hb]
+
+theorem gatherIndex_single (n b x : Nat) (hb : b < n) (hx : x < 2 ^ n) :
+    gatherIndex n [b] x = moveBit n b x := by
+  have h := bitPermLoop_eq n [b] (validBits_single n b hb)
+  simp only [List.length_cons, List.length_nil, List.reverse_cons, List.reverse_nil, List.nil_append] at h
+  rw [show (0 + 1 : Nat) = 0 + 1 from rfl, bitPermLoop, if_neg (by omega)] at h
+  simp only [List.map_nil, bitPermLoop, Option.some.injEq] at h
+  have := congrArg (fun l => l[x]?) h
+  simp only [List.getElem?_map, List.getElem?_range hx, Option.map_some, Option.some.injEq] at this
+  exact this.symm
+
+/-- `x = (i·2 + c)·t + j` with `t = 2^(n-b-1)`: qubit `b` of `x` is `c`, the other qubits spell `i·t + j` -/
+theorem gather_single_split (n b i c j : Nat) (hb : b < n) (hi : i < 2 ^ b) (hc : c < 2)
+    (hj : j < 2 ^ (n - b - 1)) :
+    gatherIndex n [b] ((i * 2 + c) * 2 ^ (n - b - 1) + j) = c * 2 ^ (n - 1) + (i * 2 ^ (n - b - 1) + j) ∧
+    (i * 2 + c) * 2 ^ (n - b - 1) + j < 2 ^ n ∧ i * 2 ^ (n - b - 1) + j < 2 ^ (n - 1) := by
+  have hn : b + (n - b - 1) + 1 = n := by omega
+  have hn1 : b + (n - b - 1) = n - 1 := by omega
+  have hlt : (i * 2 + c) * 2 ^ (n - b - 1) + j < 2 ^ n := by
+    have h1 : i * 2 + c < 2 ^ (b + 1) := by rw [Nat.pow_succ]; omega
+    have h2 : 2 ^ (b + 1) * 2 ^ (n - b - 1) = 2 ^ n := by rw [← Nat.pow_add]; congr 1; omega
+    rw [← h2]; exact block_lt _ _ _ _ h1 hj
+  have hlt2 : i * 2 ^ (n - b - 1) + j < 2 ^ (n - 1) := by
+    have h2 : 2 ^ b * 2 ^ (n - b - 1) = 2 ^ (n - 1) := by rw [← Nat.pow_add, hn1]
+    rw [← h2]; exact block_lt _ _ _ _ hi hj
+  refine ⟨?_, hlt, hlt2⟩
+  rw [gatherIndex_single n b _ hb hlt]
+  have := moveBit_arith b (n - b - 1) i c j hi hc hj
+  rw [hn, hn1] at this
+  rw [this]; ring
+
+
+theorem singleBranch_spec (m : Mode) (w : Nat) (hw : OkWidth m w) (n b : Nat) (hb : b < n)
+    (M : LMat α) (hM : M.length = 2) (f : List (Row α m) → Option (List (Row α m)))
+    (hf : ∀ blk, blk.length = 2 ^ (n - b) → RowsW m w blk →
+      f blk = some (blockMul m w M (2 ^ (n - b - 1)) blk))
+    (v : List (Row α m)) (hlen : v.length = 2 ^ n) (hvw : RowsW m w v) :
+    ((blocks (2 ^ b) v).bind fun bs => (bs.mapM f).map List.flatten) =
+      some (gatherApply m w n [b] M v) := by
+  have hv := validBits_single n b hb
+  set L := 2 ^ (n - b) with hL
+  set t := 2 ^ (n - b - 1) with ht
+  have hLt : L = 2 * t := by rw [hL, ht, ← Nat.pow_succ']; congr 1; omega
+  have hnL : 2 ^ b * L = 2 ^ n := by rw [hL]; exact pow_split n b (by omega)
+  have htpos : 0 < t := Nat.two_pow_pos _
+  have hblkl : ∀ i, i < 2 ^ b → ((v.drop (i * L)).take L).length = L := by
+    intro i hi
+    rw [List.length_take, List.length_drop, hlen, ← hnL]
+    have := block_lt i _ L 0 hi (by omega)
+    have h2 := Nat.mul_le_mul_right L (Nat.succ_le_of_lt hi); rw [Nat.succ_mul] at h2; omega
+  rw [blocksMap_spec (2 ^ b) L (by positivity) v (by rw [hlen, hnL]) f
+    (fun i => blockMul m w M t ((v.drop (i * L)).take L))
+    (fun i hi => hf _ (hblkl i hi) (rowsW_take m w _ _ (rowsW_drop m w v _ hvw)))]
+  congr 1
+  have hFl : ∀ i, i < 2 ^ b → (blockMul m w M t ((v.drop (i * L)).take L)).length = L := by
+    intro i _; rw [blockMul_length, hM, hLt]
+  apply state_ext m w
+  · rw [flatten_uniform_length (2 ^ b) L _ hFl, gatherApply_length, hnL]
+  · exact flatten_uniform_rowsW m w _ _ (fun i _ => blockMul_rowsW m w hw _ _ _)
+  · exact gatherApply_rowsW m w hw n [b] M v
+  · intro r col hr hcol
+    rw [flatten_uniform_length (2 ^ b) L _ hFl] at hr
+    have hr' : r < 2 ^ n := by rw [← hnL]; exact hr
+    have hLpos : 0 < L := by rw [hLt]; omega
+    set i := r / L with hi
+    set r1 := r % L with hr1
+    have hilt : i < 2 ^ b := by rw [hi, Nat.div_lt_iff_lt_mul hLpos]; exact hr
+    have hr1lt : r1 < 2 * t := by rw [hr1, ← hLt]; exact Nat.mod_lt _ hLpos
+    set q := r1 / t with hq
+    set j := r1 % t with hj
+    have hqlt : q < 2 := by rw [hq, Nat.div_lt_iff_lt_mul htpos]; exact hr1lt
+    have hjlt : j < t := Nat.mod_lt _ htpos
+    have hrsplit : r = (i * 2 + q) * t + j := by
+      have a1 : r = i * L + r1 := (Nat.div_add_mod' r L).symm
+      have a2 : r1 = q * t + j := (Nat.div_add_mod' r1 t).symm
+      rw [a1, a2, hLt]; ring
+    rw [stateEntry_flatten_uniform m (2 ^ b) L _ hFl r col hr, ← hi, ← hr1,
+      blockMul_entry m w hw M t _ r1 col (by rw [hM]; exact hr1lt) hcol, hM, ← hq, ← hj,
+      gatherApply_entry m w hw n [b] M v r col hr' hcol]
+    simp only [List.length_cons, List.length_nil, Nat.zero_add, Nat.pow_one]
+    -- the qubit values of `r`
+    obtain ⟨g1, _, g3⟩ := gather_single_split n b i q j hb hilt hqlt hjlt
+    rw [← hrsplit] at g1
+    have hs := gather_split n [b] hv r
+    simp only [List.length_cons, List.length_nil, Nat.zero_add] at hs
+    rw [g1, (div_mod_block q _ _ g3).1, (div_mod_block q _ _ g3).2] at hs
+    rw [← hs.1, ← hs.2]
+    apply Finset.sum_congr rfl
+    intro c hc
+    have hc' : c < 2 := Finset.mem_range.1 hc
+    obtain ⟨e1, e2, _⟩ := gather_single_split n b i c j hb hilt hc' hjlt
+    rw [← e1, gatherInv_gather n [b] hv _ e2,
+      stateEntry_block _ _ _ _ _ _ (by rw [hLt]; exact block_lt c 2 t j hc' hjlt)]
+    congr 2
+    rw [hLt]; ring
+
 
 end Q1t.Proofs.Route
